@@ -578,7 +578,7 @@ class DiscreteProbability(torch.nn.Module):
         self.theta = _hf_para(dtype, requires_grad, *tmp0).to(device)
         if weight is not None:
             assert (weight.min()>0) and weight.shape==(dim,)
-            self.weight_inv = torch.tensor(1/weight, dtype=dtype, device=device)
+            self.weight_inv = 1/torch.as_tensor(weight, dtype=dtype, device=device) #convert first: 1/weight of an integer tensor is single precision
         else:
             self.weight_inv = None
         self.dim = int(dim)
